@@ -22,6 +22,7 @@ import (
 	"github.com/ccbrown/api-fu/graphql/token"
 	"github.com/ccbrown/api-fu/graphql/validator"
 
+	"verifharness/cmd/c03/vld"
 	"verifharness/internal/hx"
 	"verifharness/internal/rng"
 	"verifharness/internal/sexp"
@@ -277,6 +278,101 @@ func crossProducts() []struct{ q, vars string } {
 	return out
 }
 
+// subscription documents x directives on the root field / on a root fragment: field collection
+// evaluates @skip/@include, the single-root-field rule of validation does not, so the set of root
+// fields that executor.subscribe sees can be empty (or have two entries)
+func subscriptionProducts() []struct{ q, vars string } {
+	var out []struct{ q, vars string }
+	add := func(q, v string) { out = append(out, struct{ q, vars string }{q, v}) }
+	for _, d := range []string{"@skip(if:true)", "@skip(if:false)", "@include(if:false)", "@include(if:true)", "@skip(if:$on)", "@include(if:$on)",
+		"@skip(if:true) @include(if:true)", "@custom", "@custom(n:$on)"} {
+		for _, vars := range []string{`{"on":true}`, `{"on":false}`, `{}`, `{"on":null}`} {
+			for _, decl := range []string{"$on:Boolean!", "$on:Boolean=true", "$on:Boolean"} {
+				if !strings.Contains(d, "$on") && (decl != "$on:Boolean!" || vars != `{"on":true}`) {
+					continue
+				}
+				h := "subscription(" + decl + ")"
+				if !strings.Contains(d, "$on") {
+					h = "subscription"
+				}
+				add(h+"{sub "+d+"}", vars)
+				add(h+"{sub(x:1) "+d+"}", vars)
+				add(h+"{subo "+d+"{i}}", vars)
+				add(h+"{...F "+d+"} fragment F on Subscription{sub}", vars)
+				add(h+"{... "+d+"{sub}}", vars)
+				add(h+"{... on Subscription "+d+"{sub}}", vars)
+				add(h+"{a:sub "+d+" b:sub}", vars)
+				add(h+"{sub "+d+" sub}", vars)
+				add(h+"{__typename "+d+"}", vars)
+			}
+		}
+	}
+	return out
+}
+
+// value literals nested n deep.  The parser's recursion limit must bound them whatever surrounds
+// the nested value: a completed sibling before it (a list item, an object field), lists, objects,
+// both alternating; as an argument of a field or of a directive, as a variable's default value.
+func deepValue(kind string, n int) string {
+	var open, shut string
+	switch kind {
+	case "list":
+		open, shut = "[", "]"
+	case "list-sibling":
+		open, shut = "[0 ", "]"
+	case "obj":
+		open, shut = "{c:", "}"
+	case "obj-sibling":
+		open, shut = "{a:0 c:", "}"
+	}
+	if kind == "mixed" || kind == "mixed-sibling" {
+		var b strings.Builder
+		for i := 0; i < n; i++ {
+			if i%2 == 0 {
+				if kind == "mixed" {
+					b.WriteString("{l:")
+				} else {
+					b.WriteString("{a:0 l:")
+				}
+			} else {
+				if kind == "mixed" {
+					b.WriteString("[")
+				} else {
+					b.WriteString("[0 ")
+				}
+			}
+		}
+		b.WriteString("1")
+		for i := n - 1; i >= 0; i-- {
+			if i%2 == 0 {
+				b.WriteString("}")
+			} else {
+				b.WriteString("]")
+			}
+		}
+		return b.String()
+	}
+	return strings.Repeat(open, n) + "1" + strings.Repeat(shut, n)
+}
+
+func deepValueDoc(place, kind string, n int) string {
+	v := deepValue(kind, n)
+	switch place {
+	case "argument":
+		if strings.HasPrefix(kind, "list") {
+			return "{inp(l:" + v + ")}"
+		}
+		return "{inp(in:" + v + ")}"
+	case "default":
+		return "query($x:In=" + v + "){inp(in:$x)}"
+	case "directive":
+		return "{i @custom(n:" + v + ")}"
+	case "unclosed":
+		return "{inp(in:" + v[:len(v)/2]
+	}
+	return "{i}"
+}
+
 func deep(kind string, n int) string {
 	switch kind {
 	case "sel":
@@ -451,6 +547,9 @@ func site() string {
 	}
 }
 
+// the watchdog: 20 s, except for the one family whose cost is known to be quadratic (see main)
+var watchdog = 20 * time.Second
+
 func guarded(f func() outcome) outcome {
 	ch := make(chan outcome, 1)
 	go func() {
@@ -464,7 +563,7 @@ func guarded(f func() outcome) outcome {
 	select {
 	case o := <-ch:
 		return o
-	case <-time.After(20 * time.Second):
+	case <-time.After(watchdog):
 		return outcome{class: "timeout"}
 	}
 }
@@ -580,13 +679,21 @@ func stageNode(name string, f func() sexp.Node) (n sexp.Node, crashed bool) {
 	}()
 	select {
 	case n = <-ch:
-	case <-time.After(20 * time.Second):
+	case <-time.After(watchdog):
 		n = sexp.T(name, sexp.Sym("crashed"))
 	}
 	return n, len(n.List) == 2 && n.List[1].Sym == "crashed"
 }
 
-func stages(api, q, vars, op string, world, weirdErr int) sexp.Node {
+// front: what the composed front half (Pipe/Compose.v parse_and_validate_bytes) is compared with:
+// the locations of the syntax errors in order, or of the validation errors (one list per error)
+type frontObs struct {
+	ok    bool
+	plocs []sexp.Node
+	vlocs []sexp.Node
+}
+
+func stages(api, q, vars, op string, world, weirdErr int, fo *frontObs) sexp.Node {
 	s := buildSchema(world, weirdErr)
 	vm, _ := parseVars(vars)
 	out := []sexp.Node{}
@@ -594,8 +701,12 @@ func stages(api, q, vars, op string, world, weirdErr int) sexp.Node {
 	pn, crashed := stageNode("parse", func() sexp.Node {
 		d, errs := parser.ParseDocument([]byte(q))
 		doc = d
+		for _, e := range errs {
+			fo.plocs = append(fo.plocs, sexp.L(sexp.Int(e.Location.Line), sexp.Int(e.Location.Column)))
+		}
 		return sexp.T("parse", sexp.Int(len(errs)))
 	})
+	fo.ok = !crashed
 	out = append(out, pn)
 	if crashed || pn.List[1].Int.Sign() != 0 {
 		return sexp.T("stages", out...)
@@ -608,8 +719,17 @@ func stages(api, q, vars, op string, world, weirdErr int) sexp.Node {
 			var actual int
 			rules = append(rules, validator.ValidateCost(op, vm, 1000, &actual, graphql.FieldCost{Resolver: 1}))
 		}
-		return sexp.T("validate", sexp.Int(len(validator.ValidateDocument(d, s, graphql.FeatureSet{}, rules...))))
+		verrs := validator.ValidateDocument(d, s, graphql.FeatureSet{}, rules...)
+		for _, e := range verrs {
+			var ls []sexp.Node
+			for _, l := range e.Locations {
+				ls = append(ls, sexp.L(sexp.Int(l.Line), sexp.Int(l.Column)))
+			}
+			fo.vlocs = append(fo.vlocs, sexp.L(ls...))
+		}
+		return sexp.T("validate", sexp.Int(len(verrs)))
 	})
+	fo.ok = fo.ok && !crashed
 	out = append(out, vn)
 	if crashed || vn.List[1].Int.Sign() != 0 || api == "validate" {
 		return sexp.T("stages", out...)
@@ -631,6 +751,26 @@ func stages(api, q, vars, op string, world, weirdErr int) sexp.Node {
 	return sexp.T("stages", out...)
 }
 
+// set by the case closure of a family whose documents must be refused by the parser
+var expectRefused bool
+
+const frontMaxBytes = 1500
+const frontMaxBytesDeep = 4200
+
+var hostileVS *sexp.Node
+
+// the hostile schema in the validator model's encoding (the same for every world: the worlds
+// differ in what resolvers return).  DateTime and LongInt accept string / integer literals
+// depending on their VALUE, which the kind-level scalars of Vld/Ast.v cannot say: they are listed
+// under "vdep" and the check leaves out documents that hold a literal at such a type.
+func hostileVSchema() sexp.Node {
+	if hostileVS == nil {
+		n := vld.SchemaSexp(buildSchema(0, 0), map[string]string{"DateTime": "custom:str", "LongInt": "custom:int"})
+		hostileVS = &n
+	}
+	return *hostileVS
+}
+
 func respNode(o outcome) sexp.Node {
 	if o.resp == nil {
 		return sexp.T("resp", sexp.Sym("none"))
@@ -648,13 +788,33 @@ func respNode(o outcome) sexp.Node {
 func emit(stream, api, q, vars, op string, world, weirdErr int) sexp.Node {
 	o := runCase(api, q, vars, op, world, weirdErr)
 	st := sexp.T("stages")
+	var fo frontObs
 	if api != "serve" {
-		st = stages(api, q, vars, op, world, weirdErr)
+		st = stages(api, q, vars, op, world, weirdErr, &fo)
 	}
-	return sexp.T("case", sexp.T("stream", sexp.Sym(stream)), sexp.T("api", sexp.Sym(api)),
+	fields := []sexp.Node{sexp.T("stream", sexp.Sym(stream)), sexp.T("api", sexp.Sym(api)),
 		sexp.T("query", sexp.Str(q)), sexp.T("vars", sexp.Str(vars)), sexp.T("op", sexp.Str(op)),
 		sexp.T("world", sexp.Int(world), sexp.Int(weirdErr)), st,
-		sexp.T("outcome", sexp.Sym(o.class), sexp.Str(o.detail)), respNode(o))
+		sexp.T("outcome", sexp.Sym(o.class), sexp.Str(o.detail)), respNode(o)}
+	// the front half of the composed model (scanner + parser + validator models from the bytes) is
+	// run on every request whose validation is the plain one (no cost rule) and whose text is short
+	if expectRefused {
+		// generator intent, checked by the oracle: a document nested far beyond the parser's
+		// recursion limit must be refused with a syntax error
+		fields = append(fields, sexp.T("expect", sexp.Sym("refused")))
+	}
+	limit := frontMaxBytes
+	if strings.HasPrefix(stream, "deep-value") {
+		limit = frontMaxBytesDeep
+	}
+	if fo.ok && (api == "execute" || api == "subscribe") && len(q) <= limit {
+		fields = append(fields, sexp.T("front",
+			sexp.T("vschema", hostileVSchema()),
+			sexp.T("vdep", sexp.L(sexp.Str("DateTime"), sexp.Str("LongInt"))),
+			sexp.T("plocs", sexp.L(fo.plocs...)),
+			sexp.T("vlocs", sexp.L(fo.vlocs...))))
+	}
+	return sexp.T("case", fields...)
 }
 
 func main() {
@@ -689,6 +849,11 @@ func main() {
 			h.Case(func(*rng.R) sexp.Node { return emit("cross", "execute", c.q, c.vars, "", 0, 0) })
 			h.Case(func(*rng.R) sexp.Node { return emit("cross", "validate", c.q, c.vars, "", 0, 0) })
 		}
+		for _, c := range subscriptionProducts() {
+			c := c
+			h.Case(func(*rng.R) sexp.Node { return emit("cross-subscription", "subscribe", c.q, c.vars, "", 0, 0) })
+			h.Case(func(*rng.R) sexp.Node { return emit("cross-subscription", "execute", c.q, c.vars, "", 0, 0) })
+		}
 		// 4. depth and width
 		depths := []int{1, 10, 100, 499, 500, 501, 999, 1000, 1001, 1500, 5000}
 		if h.Thorough() {
@@ -697,7 +862,36 @@ func main() {
 		for _, k := range []string{"sel", "list", "obj", "type", "wide", "wideargs", "inline", "unclosed", "unclosedlist"} {
 			for _, n := range depths {
 				k, n := k, n
-				h.Case(func(*rng.R) sexp.Node { return emit("deep-"+k, "execute", deep(k, n), `{}`, "", 0, 0) })
+				if k == "wide" && n > 20000 {
+					// n fields of one response name: FieldsInSetCanMerge compares them pairwise
+					// (quadratic; the polynomial bound is property C12): 5000 take about 2 s,
+					// 20000 about 35 s, 100000 about a quarter of an hour per call
+					continue
+				}
+				h.Case(func(*rng.R) sexp.Node {
+					if k == "wide" && n > 5000 {
+						watchdog = 320 * time.Second // 20 s x (20000/5000)^2
+						defer func() { watchdog = 20 * time.Second }()
+					}
+					return emit("deep-"+k, "execute", deep(k, n), `{}`, "", 0, 0)
+				})
+			}
+		}
+		// 4b. nesting depth of value literals, around the parser's limit and far beyond it
+		vdepths := []int{1, 10, 100, 249, 250, 251, 333, 334, 499, 500, 501, 999, 1000, 1001, 1500, 3000}
+		if h.Thorough() {
+			vdepths = append(vdepths, 20000, 200000)
+		}
+		for _, place := range []string{"argument", "default", "directive", "unclosed"} {
+			for _, kind := range []string{"list", "list-sibling", "obj", "obj-sibling", "mixed", "mixed-sibling"} {
+				for _, n := range vdepths {
+					place, kind, n := place, kind, n
+					h.Case(func(*rng.R) sexp.Node {
+						expectRefused = n >= 2000 // the limit is 1000 productions
+						defer func() { expectRefused = false }()
+						return emit("deep-value-"+place, "execute", deepValueDoc(place, kind, n), `{}`, "", 0, 0)
+					})
+				}
 			}
 		}
 		// 5. operation names
@@ -732,6 +926,16 @@ func main() {
 				}
 				return emit(stream, api, q, randomVars(r), rng.Pick(r, []string{"", "", "", "Q", "A"}), r.Intn(nWeird), r.Intn(3))
 			})
+		}
+		// 7. the composed stream: requests inside the common envelope of the stage models, on which
+		// the composed model (Pipe/Compose.v) is run from the bytes and compared
+		nc := 2400
+		if h.Thorough() {
+			nc = 60000
+		}
+		for i := 0; i < nc; i++ {
+			kind := composedKinds[i%len(composedKinds)]
+			h.Case(func(r *rng.R) sexp.Node { return composedCase(r, kind) })
 		}
 	})
 }
